@@ -19,20 +19,19 @@ CHECKS = {
         design="DESIGN.md section 4, C03"),
     "C04": dict(
         engine="E1 space",
-        technique="complete enumeration of truth value x provenance pairs on the real interpreter against Kleene tables, with re-evaluation of the same node"
-             ' The result of a comparison with a null side must be a *boolean* null (typeof, combination with or / and / not / xor); the iterator left by a forall is an atom and is probed after every case.',
+        technique="complete enumeration of truth value x provenance pairs on the real interpreter against Kleene tables, with re-evaluation of the same node",
         text="All pairs of {true,false,null} x 9..11 provenances (constant, typed constructor, variable, undefined-type variable, function result, table "
              "element, tuple item, result of not/comparison) for and/&&/or/||/xor and not/!, every relational operator with a null side for every "
              "scalar type and null provenance, and if/elsif/while conditions are run on the real interpreter; each expression is evaluated once and "
              "three more times by the same program node inside a loop, pairs of expressions share one loop body, and a fixed probe program checks "
              "afterwards that null, isnull(null), typeof(null) and all variables still mean the same. The space is finite and enumerated completely."
-             ' Also: relational operators with table and tuple operands, boolean-declared functions returning the untyped null or falling off their end, boolean variables reset inside while / if; the space is explored against the clang sanitizer build and the gcc -O2 build.',
+             ' Also: relational operators with table and tuple operands, boolean-declared functions returning the untyped null or falling off their end, boolean variables reset inside while / if; the space is explored against the clang sanitizer build and the gcc -O2 build.'
+             ' The result of a comparison with a null side must be a *boolean* null (typeof, combination with or / and / not / xor); the iterator left by a forall is an atom and is probed after every case.',
         note="trusted: Kleene tables, print formatting of TRUE/FALSE/null; conditions of undefined static type refused at compile time are not counted",
         design="DESIGN.md section 4, C04"),
     "C06": dict(
         engine="E1 space",
-        technique="bounded exhaustive enumeration of loop headers and of all nestings of control statements, each run on the real interpreter and compared step by step with a reference interpreter"
-             ' break / continue where no loop of the same function or program runs (10 programs, C++ and C API routes).',
+        technique="bounded exhaustive enumeration of loop headers and of all nestings of control statements, each run on the real interpreter and compared step by step with a reference interpreter",
         text="(a) Every for header over first/limit in {MIN, MIN+1, -2..2, MAX-1, MAX, null} x step in {absent, null, MIN, -1, 0, 1, 2, MAX} x {auto, asc, desc}, "
              "every short range run to completion near 0 / INT64_MAX / INT64_MIN including bodies that write the control variable, and forall over tables of "
              "length 0..3; (b) every program of a nesting grammar (if/else, for, while, forall, begin+handler around blocks of print / break / continue / return / "
@@ -40,7 +39,8 @@ CHECKS = {
              "reported error and final loop variables are compared with the reference interpreter vf/ctl.py; a deterministic step budget separates termination "
              "from non-termination; probe statements then check in the same context that no iterator constraint, table lock, pending break/continue, control "
              "entry or block level is left behind."
-             ' Added: bodies that change the variables the bounds and the step were taken from (evaluated once); every if / elsif / else chain of <= 3 rules over {true, false, null} at top level, in a loop and in a function; the header family also against the gcc -O2 build.',
+             ' Added: bodies that change the variables the bounds and the step were taken from (evaluated once); every if / elsif / else chain of <= 3 rules over {true, false, null} at top level, in a loop and in a function; the header family also against the gcc -O2 build.'
+             ' break / continue where no loop of the same function or program runs (10 programs, C++ and C API routes).',
         note="trusted: the reference interpreter (structured semantics of the manual), the step budget (200000 statements) as the non-termination verdict",
         design="DESIGN.md section 4, C06"),
     "C07": dict(
@@ -58,8 +58,7 @@ CHECKS = {
         design="DESIGN.md section 4, C07"),
     "C01": dict(
         engine="E1 space",
-        technique="bounded exhaustive sweeps of byte strings, token strings, single deviations from valid programs and the vocabulary x argument-value product, executed on the real interpreter under ASan+UBSan with fork isolation"
-             ' Round 3: the same vocabulary with every operand handed over through an untyped function parameter (only run-time guards apply), tables of every element type in the alphabet.',
+        technique="bounded exhaustive sweeps of byte strings, token strings, single deviations from valid programs and the vocabulary x argument-value product, executed on the real interpreter under ASan+UBSan with fork isolation",
         text="Swept completely: all byte strings of length <=2 and of length 3 (4 and 5 in thorough) over scanner character classes; all token strings of "
              "length <=3 (4) over representative tokens in a context holding a variable, a table, a tuple and a function; every truncation, token deletion, "
              "adjacent swap, duplication and single-byte substitution of 36 valid seed programs covering every statement and expression form; every "
@@ -67,13 +66,13 @@ CHECKS = {
              "untyped null values of every type, as literals and as variables); each text through the C++ API and the C API, representatives through the "
              "bloc command (file and stdin). Oracle: the outcome is completion, a parse error or a runtime error; no signal, no ASan/UBSan report, no "
              "foreign exception, no step-budget hit without a loop, no CPU-watchdog hang."
-             ' Added families: every outer loop form x inner construct locking the same table x mutation of the iterated table x use of the iterator (1200 programs); scripts that read standard input (readln, read, input) x inputs sized around the internal buffers through the bloc command.',
+             ' Added families: every outer loop form x inner construct locking the same table x mutation of the iterated table x use of the iterator (1200 programs); scripts that read standard input (readln, read, input) x inputs sized around the internal buffers through the bloc command.'
+             ' Round 3: the same vocabulary with every operand handed over through an untyped function parameter (only run-time guards apply), tables of every element type in the alphabet.',
         note="trusted: clang 14 ASan+UBSan; size arguments capped at 65536 (allocation exhaustion is outside the property's domain); texts outside the alphabets are not covered",
         design="DESIGN.md section 4, C01"),
     "C08": dict(
         engine="E2 hist",
-        technique="exhaustive enumeration of all call histories up to a bound before each probe call, differential against a fresh context and against a model value"
-             ' Calls as the operand of a program-level return; a function defined again after its earlier definition was called (6 x 6 bodies x 4 histories); error@1 outside handlers after a call whose handler raised; a built-in that fails at the second evaluation of an argument.',
+        technique="exhaustive enumeration of all call histories up to a bound before each probe call, differential against a fresh context and against a model value",
         text="For each of 24 function groups (conditionally assigned locals of integer/string/table type, accumulating local, loop with early return, "
              "recursion, mutual recursion through redefinition, parameter mutation of table/string/integer, handled and unhandled errors, errors inside "
              "forall/for/while in the callee, nested return, overloads by arity, printing, type-changing and $-constrained locals, missing return) and each "
@@ -82,13 +81,13 @@ CHECKS = {
              "model value. Caller variables must be unchanged, bodies naming caller variables must be rejected, recursion depths 250..261 (also after "
              "earlier deep or failed recursions) must succeed up to 255 nested calls and raise the recursion-limit error at the 256th, and LeakSanitizer "
              "must be silent after histories containing failing calls."
-             ' Added: calls nested in their own argument lists in the call alphabets, the same callee reached at several nesting levels, recursion-limit probes below k+1 levels of another function after earlier calls at other levels.',
+             ' Added: calls nested in their own argument lists in the call alphabets, the same callee reached at several nesting levels, recursion-limit probes below k+1 levels of another function after earlier calls at other levels.'
+             ' Calls as the operand of a program-level return; a function defined again after its earlier definition was called (6 x 6 bodies x 4 histories); error@1 outside handlers after a call whose handler raised; a built-in that fails at the second evaluation of an argument.',
         note="trusted: hand-written expected value per call, LeakSanitizer; histories longer than the bound are not covered",
         design="DESIGN.md section 4, C08"),
     "C10": dict(
         engine="E1 space",
-        technique="bounded exhaustive enumeration of byte strings x position lattice x code lattice on the real interpreter, compared with Python bytes/base64 reference operations and round-trip relations"
-             ' hex(value, width) over a 14 x 23 lattice with a model (the width is a digit count, not an allocation).',
+        technique="bounded exhaustive enumeration of byte strings x position lattice x code lattice on the real interpreter, compared with Python bytes/base64 reference operations and round-trip relations",
         text="All strings of length <=2 (quick) / <=3 (thorough) over 11 bytes (NUL, space, a, A, 1, comma, quote, LF, 0x7f, 0x80, 0xff) for every unary "
              "string/bytes built-in; all strings over 4 bytes x positions {null, MIN, -1, 0..4, MAX} for lsubstr/rsubstr/substr/subraw/strpos/hash/hex/chr/at; "
              "all (string, begin, count) triples; all (x, y, z) triples for replace/tokenize/strpos; all strings of length <=3 (4) over 0 1 . e E - + space x a "
@@ -96,13 +95,13 @@ CHECKS = {
              "length 3 (4) over 16 bytes for base64; every code of the integer lattice and 254..257 for chr/put/concat/insert/raw. Arguments are bound exactly "
              "through the API and re-dumped after the calls (must be unchanged); results are read as hex. Reference: Python bytes operations, base64 and DJB "
              "hash where the manual defines the value; otherwise totality, memory safety and the stated relations."
-             ' Added: numeric edge strings, separators containing NUL, an in-place method chained on the result of every built-in with the arguments compared afterwards; the quick space also against the gcc -O2 build.',
+             ' Added: numeric edge strings, separators containing NUL, an in-place method chained on the result of every built-in with the arguments compared afterwards; the quick space also against the gcc -O2 build.'
+             ' hex(value, width) over a 14 x 23 lattice with a model (the width is a digit count, not an allocation).',
         note="trusted: Python bytes/base64 as reference; C locale; trim family only required to strip spaces and nothing but whitespace; hash of bytes >= 0x80 only required to be deterministic",
         design="DESIGN.md section 4, C10"),
     "C09": dict(
         engine="E2 hist",
-        technique="explicit-state breadth-first search over container operation histories on the real interpreter (states = canonical dumps, rebuilt by replay), invariant and reference-model comparison in every state"
-             " Rows of a table of tables (one of them null) receiving what an opaque function hands back; containers made for objects of one module never hold objects of another (C17's wrong-module programs).",
+        technique="explicit-state breadth-first search over container operation histories on the real interpreter (states = canonical dumps, rebuilt by replay), invariant and reference-model comparison in every state",
         text="Breadth-first search to depth 2 (quick) / 3 (thorough, bounded frontier reported) over histories of at/put/insert/delete/concat/count/set@/@ on "
              "seven table kinds (integer, decimal, string, bytes, boolean, tuple, 2-dimensional), a string, a bytes value and a 5-item tuple. Positions "
              "{null,-1,0,1,n-1,n,n+1,2^32,MAX}, ranks {0,1,2,5,6,2^32+1}, byte codes {null,-1,0,65,255,256,MAX}, element arguments of every type (matching, "
@@ -112,13 +111,13 @@ CHECKS = {
              "operation leaves the dump unchanged, null/out-of-range positions are rejected, in-range results are the documented ones. In addition all "
              "tuple declarations of <=3 (quick, neighbourhood) / <=4 (thorough, all pairs) items over 6 item types are checked pairwise for type identity, "
              "and every mutator of a table under forall must be refused at compile time."
-             ' Added: item / element expressions whose value changes from one evaluation to the next (11^3 sequences through tab, concat, put, insert): refused or uniform; level 1 also against the gcc -O2 build.',
+             ' Added: item / element expressions whose value changes from one evaluation to the next (11^3 sequences through tab, concat, put, insert): refused or uniform; level 1 also against the gcc -O2 build.'
+             ' Rows of a table of tables (one of them null) receiving what an opaque function hands back; containers made for objects of one module never hold objects of another (C17\'s wrong-module programs).',
         note="trusted: the Python list model; containers above 5 elements are not expanded; 48 tuple-declaration hash collisions are recorded findings (KNOWN_FINDINGS.txt)",
         design="DESIGN.md section 4, C09"),
     "C05": dict(
         engine="E1 space + E2 hist",
-        technique="exhaustive enumeration of the expression vocabulary with repeated evaluation and deep dumps; explicit-state breadth-first search over assignment/mutation histories compared with a deep-copy model"
-             ' The alias search includes `return a / t / u / t.at(0)` steps (the host goes on using the context).',
+        technique="exhaustive enumeration of the expression vocabulary with repeated evaluation and deep dumps; explicit-state breadth-first search over assignment/mutation histories compared with a deep-copy model",
         text="(a) Every expression of the vocabulary product (every builtin, operator, type method and @rank applied to the boundary value alphabet, literals and "
              "variables of every type) is printed three times by the same program node inside a loop and assigned twice; the three results must be equal and "
              "the deep dump of all 24 context variables (scalars, strings, bytes, tuples, 1- and 2-dimensional tables, nulls) must be identical before and "
@@ -126,13 +125,13 @@ CHECKS = {
              "fresh assignment, in-place mutators on each variable, t.put(i, a), t = tab(n, a), u = tup(a, ..), element access and mutation through at(), "
              "calls that mutate or return their parameter, and forall writes, for strings, bytes, tables (incl. tables of tables) and tuples; states are "
              "canonical dumps, and in every state the dump of {a, b, t, u} must equal a Python deep-copy model."
-             ' (c) operand kinds: 130 typed signatures x {constant, variable, temporary, table element, tuple item, function result} per argument, each compared with its all-constant form in the same context, variables unchanged, re-evaluation in an unchanged state, and the same with an in-place method chained on the result; (d) storage locations (variable, forall iterator, for variable, parameter, local, table element, tuple item, returned value) x source kind x 56 reader expressions. (c) and (d) also against the gcc -O2 build.',
+             ' (c) operand kinds: 130 typed signatures x {constant, variable, temporary, table element, tuple item, function result} per argument, each compared with its all-constant form in the same context, variables unchanged, re-evaluation in an unchanged state, and the same with an in-place method chained on the result; (d) storage locations (variable, forall iterator, for variable, parameter, local, table element, tuple item, returned value) x source kind x 56 reader expressions. (c) and (d) also against the gcc -O2 build.'
+             ' The alias search includes `return a / t / u / t.at(0)` steps (the host goes on using the context).',
         note="trusted: the deep-copy model; impure builtins (random, read, readln, input, getsys, getenv) are excluded from (a); objects are shared by design (C17)",
         design="DESIGN.md section 4, C05"),
     "C11": dict(
         engine="E2 hist",
-        technique="exhaustive enumeration of (valid prefix x rejected text at every token position x probe suite) histories on the real parser, differential against an undisturbed twin context"
-             ' Type-safe ($) variables holding tables and tuples assigned another structure by the rejected text.',
+        technique="exhaustive enumeration of (valid prefix x rejected text at every token position x probe suite) histories on the real parser, differential against an undisturbed twin context",
         text="For each valid prefix (variables of every type, $-variable, tables, tuples, typed nulls; five functions incl. overloads and a recursive one) and "
              "each of 22 valid texts touching them (loops over existing variables, forall over existing and nested tables, begin/exception, typed "
              "re-declaration, redefinition of the first / middle / last / recursive function, new overload, chained statements), every truncation at a token "
@@ -142,7 +141,8 @@ CHECKS = {
              "symbol is left; then a probe suite (call every function, print/retype/mutate every variable, redefine and add functions, run all 22 valid "
              "texts) must behave identically in the disturbed context and in an undisturbed twin. Thorough adds two more prefixes, all three routes for "
              "every text and chains of two rejected texts."
-             ' Added: rejected texts declaring several functions or one function twice before the error; structured variables re-typed with another rank; texts that include a file (which redefines functions) successfully and fail later.',
+             ' Added: rejected texts declaring several functions or one function twice before the error; structured variables re-typed with another rank; texts that include a file (which redefines functions) successfully and fail later.'
+             ' Type-safe ($) variables holding tables and tuples assigned another structure by the rejected text.',
         note="trusted: differential twin; names introduced only by the rejected text are ignored, as the property allows",
         design="DESIGN.md section 4, C11"),
     "C12": dict(
@@ -160,8 +160,7 @@ CHECKS = {
         design="DESIGN.md section 4, C12"),
     "C13": dict(
         engine="E4 env",
-        technique="exhaustive enumeration of environment answers (read fragmentations with 0, 1, 2 deviations from the default delivery, fixed fragment sizes, long-line alignments) on the real scanner/parser, compared with the default delivery"
-             ' Lexemes aligned across byte 64 x 1023 (16, 65, 128 x 1023 in thorough) with blank padding.',
+        technique="exhaustive enumeration of environment answers (read fragmentations with 0, 1, 2 deviations from the default delivery, fixed fragment sizes, long-line alignments) on the real scanner/parser, compared with the default delivery",
         text="For each of 50 short texts that together contain every multi-character lexeme (numbers in every form, names, every 2-character operator, "
              "word operators, string escapes, doubled quotes, block/line/# comments, CRLF, and rejected texts), the byte stream is delivered by a fragmenting "
              "StreamReader with 0 splits (reference: one read per line), every single split position, every pair of split positions (every third triple in "
@@ -169,13 +168,13 @@ CHECKS = {
              "5 (quick) / all (thorough) alignments across byte 1023 (and 2046) of one long line, LF and CRLF, through StringReader and through the bloc "
              "command's file and stdin readers, against the same tokens one per line. Oracle: token stream (code, text), parse verdict and message, unparsed "
              "program and program output are equal to the reference delivery."
-             ' Added routes for the long-line and line-length families: the reader of the include statement and the reader of the interactive mode.',
+             ' Added routes for the long-line and line-length families: the reader of the include statement and the reader of the interactive mode.'
+             ' Lexemes aligned across byte 64 x 1023 (16, 65, 128 x 1023 in thorough) with blank padding.',
         note="trusted: the unsplit delivery as reference; // and # comments are line-anchored and are not joined onto long lines; a custom reader that passes CR through is compared with itself only",
         design="DESIGN.md section 4, C13"),
     "C02": dict(
         engine="E1 space",
-        technique="bounded exhaustive enumeration of the (construct x operand type x nullness) matrix comparing compile-time and run-time types, of all short programs for batch-vs-stepwise equivalence, and of all (initial, assigned) type pairs under constraints"
-             ' Every evaluated value is also checked against its own type (tuple items vs declaration, table elements vs element type, nulls included).',
+        technique="bounded exhaustive enumeration of the (construct x operand type x nullness) matrix comparing compile-time and run-time types, of all short programs for batch-vs-stepwise equivalence, and of all (initial, assigned) type pairs under constraints",
         text="(a) For every expression of the vocabulary product (every builtin, operator, type method and @rank over literals, variables, typed nulls, untyped "
              "null, function results, table elements and tuple items of every type; depth-2 operator pairs in thorough) the static type is read from "
              "Expression::type() while the context is in parsing mode and compared with the type of the evaluated value (major, tuple structure, table "
@@ -186,13 +185,13 @@ CHECKS = {
              "type, assigned type) pair over 18 typed values for $-variables, for iterators and forall iterators over four element types, by direct "
              "assignment and through an expression of opaque type: typeof never changes while the constraint is active, the iterator accepts any type "
              "afterwards and the iterated table stays uniform."
-             ' The operand-kind product (typed signatures x constant / variable / temporary / element / item / function result) goes through the same static-vs-dynamic comparison, and a second statement alphabet around tuples, tables of tuples and assignments that are compiled but never executed goes through unit-vs-stepwise.',
+             ' The operand-kind product (typed signatures x constant / variable / temporary / element / item / function result) goes through the same static-vs-dynamic comparison, and a second statement alphabet around tuples, tables of tuples and assignments that are compiled but never executed goes through unit-vs-stepwise.'
+             ' Every evaluated value is also checked against its own type (tuple items vs declaration, table elements vs element type, nulls included).',
         note="trusted: Expression::type() under Context::parsing() is the compile-time type; typeof compared case-insensitively",
         design="DESIGN.md section 4, C02"),
     "C14": dict(
         engine="E3 sched",
-        technique="stateless model checking of the implementation: depth-first exploration of all thread schedules up to a preemption bound under a cooperative scheduler that owns the instrumented points, plus a free-running ThreadSanitizer pass and exhaustive sequential call orders"
-             ' The orders program includes a source file (the included statements must run in the executing context).',
+        technique="stateless model checking of the implementation: depth-first exploration of all thread schedules up to a preemption bound under a cooperative scheduler that owns the instrumented points, plus a free-running ThreadSanitizer pass and exhaustive sequential call orders",
         text="harness/sched.cpp compiles one program, clones the context N times and runs bloc_execute2 on N real threads; only one thread runs at a time and "
              "control changes hands only at BLOC_VERIF_POINTs (statement entry, null node, random generator, error text buffer, C API last-error record, "
              "reference counts) and before a failed thread reads bloc_errno / bloc_strerror. All choice sequences with at most 2 preemptions for 2 threads "
@@ -203,13 +202,13 @@ CHECKS = {
              "run free under ThreadSanitizer (4 threads quick; 2/4/8 thorough): any report in the library is a violation. All precondition-respecting "
              "orders (length <=5 / <=6) of clone, run in clone, run in original, purge original, free original, free clone, free executable are run "
              "against a sequential model under ASan."
-             ' Added: programs reading clone-inherited variables as operands and `matches` with per-clone patterns; the sequential run in clones is compared with runs in contexts that were never cloned; the valid programs of the C01 corpus at 2 threads (bound 1 / 2) and under ThreadSanitizer.',
+             ' Added: programs reading clone-inherited variables as operands and `matches` with per-clone patterns; the sequential run in clones is compared with runs in contexts that were never cloned; the valid programs of the C01 corpus at 2 threads (bound 1 / 2) and under ThreadSanitizer.'
+             ' The orders program includes a source file (the included statements must run in the executing context).',
         note="trusted: sufficiency of the instrumented points (checked by the TSan pass, not assumed); weak memory orderings are not modelled; more than 3 threads only in the TSan pass",
         design="DESIGN.md section 4, C14"),
     "C16": dict(
         engine="E2 hist",
-        technique="explicit-state search over process-wide event histories (grants, loads, contexts, compiles) replayed on the real library in a fresh process per history, compared with a permission model"
-             ' The spelling sweep also runs in a context that was trusted and made untrusted again, and includes import by path expression (`import str(..)`, `import zp`) and include, refused whatever is granted.',
+        technique="explicit-state search over process-wide event histories (grants, loads, contexts, compiles) replayed on the real library in a fresh process per history, compared with a permission model",
         text="The module registry and the grant list are process-wide while trust is per context, so every history runs in a process of its own. Events: host "
              "grants vmod / vmod2, clears the grants, clones the untrusted context; a trusted context imports and constructs; the untrusted context and its "
              "clone import by name, import by path, include a file, construct at top level / inside a function body / by copy constructor / with another "
@@ -218,13 +217,13 @@ CHECKS = {
              "then breadth-first over model-distinct states to depth 6 / 8. Oracle: the constructor compiles in an untrusted context iff the module is "
              "loaded and granted at that moment; import by path and include are refused there; the trusted context is never refused; and the "
              "verification module's creation log shows no object created by code compiled without a grant."
-             ' Added: 29 constructor spellings (empty / blank / commented argument list, every arity, nested, upper case, inside expressions, conditions, loop headers, handlers, function bodies, return) x 4 situations without a valid grant x original / clone x loaded by import / by construction.',
+             ' Added: 29 constructor spellings (empty / blank / commented argument list, every arity, nested, upper case, inside expressions, conditions, loop headers, handlers, function bodies, return) x 4 situations without a valid grant x original / clone x loaded by import / by construction.'
+             ' The spelling sweep also runs in a context that was trusted and made untrusted again, and includes import by path expression and include, refused whatever is granted.',
         note="trusted: the permission model; vmod (harness/vmod.cpp) stands for any module",
         design="DESIGN.md section 4, C16"),
     "C17": dict(
         engine="E2 hist",
-        technique="explicit-state breadth-first search over statement histories on the real interpreter with an instrumented module, each state checked against a reference-count model from the module's create/destroy/method event log"
-             ' Statements that return an object to a host that never collects it; the module logs foreign objects received as arguments; containers are checked against the module their type names.',
+        technique="explicit-state breadth-first search over statement histories on the real interpreter with an instrumented module, each state checked against a reference-count model from the module's create/destroy/method event log",
         text="harness/vmod.cpp (built as vmod and vmod2) gives every object its own heap block (guarded by ASan), an id and an event log. Breadth-first search "
              "to depth 4 (quick) / 6 (thorough) over 27 statements - construct, b = a, overwrite, store in table / tuple, delete, concat, pass to a "
              "function, return from a function, temporaries, chained self(), a method returning another object, copy constructor, INOUT argument, "
@@ -235,13 +234,13 @@ CHECKS = {
              "copies of references create no object, the variables and table hold the objects the model predicts, and after release every created object "
              "has exactly one destroy event. Ten programs offer a vmod2 object where vmod was compiled; no method or constructor of one module may run "
              "on an object of the other."
-             ' Added: 11 carriers of a foreign object x 10 uses; loops refused at entry or dying in their body; 15 scripts + 4 interactive sessions through the bloc command (file, stdin, --out, -i) with every object destroyed exactly once by process end.',
+             ' Added: 11 carriers of a foreign object x 10 uses; loops refused at entry or dying in their body; 15 scripts + 4 interactive sessions through the bloc command (file, stdin, --out, -i) with every object destroyed exactly once by process end.'
+             ' Statements that return an object to a host that never collects it; the module logs foreign objects received as arguments; containers are checked against the module their type names.',
         note="trusted: the holder model; late destruction (before release) is allowed by the property and not flagged",
         design="DESIGN.md section 4, C17"),
     "C18": dict(
         engine="E1 space + E2 hist",
-        technique="bounded exhaustive enumeration of rows / byte strings / parameter tuples / operation sequences on the real modules, each compared with an independent reader (Python codecs, Python sqlite3, a byte-buffer twin file)"
-             ' A prepared statement bound three times (values, nulls, values); a write without final newline in the quick file alphabet.',
+        technique="bounded exhaustive enumeration of rows / byte strings / parameter tuples / operation sequences on the real modules, each compared with an independent reader (Python codecs, Python sqlite3, a byte-buffer twin file)",
         text="csv: every row of one field (length <=2 quick / <=3 thorough), two fields and three short fields over {a, space, separator, quote, LF, CR} for four "
              "separator/quote formats is serialised and deserialised in one shot and line by line (deserialize + deserialize_next per LF); the fields must "
              "come back identical with a complete-record status. utf8: every byte string of length <=3 / <=4 over 16 bytes covering every lead, "
@@ -253,7 +252,8 @@ CHECKS = {
              "NUL/high-byte strings, empty and binary bytes, typed nulls, boolean) is bound by exec(sql, tuple) and read back by query() and, independently, "
              "by Python's sqlite3 from the same database file: value and SQL type must match. Every method of the four modules is called with null / "
              "out-of-range / wrong-type-state arguments on fresh, closed and null objects. Every case runs in its own process under ASan+UBSan."
-             ' Added: utf8 insert / concat of unicode strings (another one and itself) against Python, object arguments offered to utf8 (own, null, foreign through a function with a declared result type); files and read requests sized around the module buffer, long lines through readln; the sqlite3 prepared-statement path (bind, execute, fetch) against query().',
+             ' Added: utf8 insert / concat of unicode strings (another one and itself) against Python, object arguments offered to utf8 (own, null, foreign through a function with a declared result type); files and read requests sized around the module buffer, long lines through readln; the sqlite3 prepared-statement path (bind, execute, fetch) against query().'
+             ' A prepared statement bound three times (values, nulls, values); a write without final newline in the quick file alphabet.',
         note="trusted: Python codecs/sqlite3, the twin-file semantics; size arguments capped; plplot cannot be built here and is not claimed; two utf8 findings recorded (KNOWN_FINDINGS.txt)",
         design="DESIGN.md section 4, C18"),
     "C19": dict(
@@ -262,21 +262,20 @@ CHECKS = {
         text="33 programs covering every outcome class (prints and succeeds, compile errors at known positions, unhandled runtime errors incl. errors inside a "
              "function and the recursion limit, handled error, return of boolean / integer / negative / decimal / 17-digit decimal / string / empty string / "
              "tuple / complex / null / typed null / table / bytes / nothing, output before a failure, $ARG readers, shebang, empty file) x all argument "
-             "vectors of <=1 (quick) / <=2 (thorough) items over {\"\", \"a b\"
-             ' 33 compile errors at places computed from the text (after block / line comments, multi-line strings, tabs, blank lines, inside a loop) compared with the reported line:column.', quoted, non-ASCII, -x, --out=z, -} x modes {file, - (stdin), --out=F}; 16 "
+             "vectors of <=1 (quick) / <=2 (thorough) items over {\"\", \"a b\", quoted, non-ASCII, -x, --out=z, -} x modes {file, - (stdin), --out=F}; 16 "
              "expressions through -e; 10 interactive transcripts fed to -i (including errors in a while condition, a for body, a forall body and a begin "
              "block followed by break and further loops) and 2 save/load sessions. Oracle: the in-process run of the same text with $ARG set identically: "
              "selected output byte-equal (stdout or the --out file, the other empty), returned value printed by the documented rule, exit status 0 iff no "
              "unhandled error, otherwise 'Error (line:column): message' / 'Error: message' on stderr with the library's position and text; interactive "
              "transcripts (prompts, echo, banner, Elapsed removed) print the same lines in the same order as the library's statement-at-a-time run; a saved "
              "session run again prints the same and saving the loaded session gives the same text."
-             ' Added: 12 source bytes x 6 places through file / stdin / --out, option-like program arguments (-e, -i, --parse, --out=), a missing --out file is a violation, save / load sessions from the C12 statement programs.',
+             ' Added: 12 source bytes x 6 places through file / stdin / --out, option-like program arguments (-e, -i, --parse, --out=), a missing --out file is a violation, save / load sessions from the C12 statement programs.'
+             ' 33 compile errors at places computed from the text (after block / line comments, multi-line strings, tabs, blank lines, inside a loop) compared with the reported line:column.',
         note="trusted: the library run as reference; the ASan build of the bloc executable; terminal colour codes are stripped",
         design="DESIGN.md section 4, C19"),
     "C15": dict(
         engine="E2 hist",
-        technique="exhaustive enumeration of precondition-respecting C API call sequences generated from a state-machine model of handles and ownership, executed on the real library under ASan/LSan and compared call by call with the model"
-             ' A parse error inside every kind of block (while, forall, if, else, begin, handler, function body, nested, empty while body) followed by a function definition.',
+        technique="exhaustive enumeration of precondition-respecting C API call sequences generated from a state-machine model of handles and ownership, executed on the real library under ASan/LSan and compared call by call with the model",
         text="A model of two contexts, symbols A and B, three caller-owned values, two library-owned pointers, one expression and one executable drives 63 "
              "operations: creation of values of every type including NULL payloads, store/load, assign, inspection by every typed accessor (match iff type, "
              "NULL data iff null, table/tuple size and items, item access past the end), parse of 13 valid and 5 invalid texts with and without position "
@@ -287,7 +286,8 @@ CHECKS = {
              "LeakSanitizer must be silent. In addition every rejected text of the C11 corpus (about 1 600 quick / 5 000 thorough truncations and "
              "single-token corruptions) is parsed through bloc_parse_executable and bloc_parse_expression, the context must still run a valid program, "
              "and no memory may remain after release."
-             ' Added to the alphabet: host updates of a variable through its loaded pointer (assign literal / tabchar / null) followed by scripts reading it twice, handler-raises and forall-error executables, a tuple variable re-typed by a parse that is not executed, a table symbol registered by the host, trace flag and version calls.',
+             ' Added to the alphabet: host updates of a variable through its loaded pointer (assign literal / tabchar / null) followed by scripts reading it twice, handler-raises and forall-error executables, a tuple variable re-typed by a parse that is not executed, a table symbol registered by the host, trace flag and version calls.'
+             ' A parse error inside every kind of block (while, forall, if, else, begin, handler, function body, nested, empty while body) followed by a function definition.',
         note="trusted: the handle/ownership model in vf/props/c15.py; ASan/LSan of clang 14 (a g++-only leak found by reading is recorded as fixed)",
         design="DESIGN.md section 4, C15"),
 }
